@@ -4,7 +4,7 @@
 // license that can be found in the LICENSE file or at
 // https://opensource.org/licenses/MIT.
 
-use parking_lot::MutexGuard;
+use parking_lot::{Mutex, MutexGuard};
 use std::collections::VecDeque;
 use std::ops::Range;
 use std::rc::Rc;
@@ -69,9 +69,10 @@ pub(crate) struct CompactionWorker {
     The join handle of the background compaction thread.
 
     This is used to try to gracefully shutdown the background compaction thread during database
-    shutdown.
+    shutdown. The worker is shared with the iterators created from the database (they schedule
+    compactions from read samples), so the handle is taken through a shared reference.
     */
-    maybe_background_compaction_handle: Option<JoinHandle<()>>,
+    maybe_background_compaction_handle: Mutex<Option<JoinHandle<()>>>,
 
     /// Sender end of the channel that the worker utilizes to schedule tasks.
     task_sender: mpsc::SyncSender<TaskKind>,
@@ -170,7 +171,7 @@ impl CompactionWorker {
         );
 
         let worker = Self {
-            maybe_background_compaction_handle: Some(background_thread_handle),
+            maybe_background_compaction_handle: Mutex::new(Some(background_thread_handle)),
             task_sender,
         };
 
@@ -205,8 +206,10 @@ impl CompactionWorker {
 
     This method should only be called when the database client is being dropped.
     */
-    pub(crate) fn stop_worker_thread(&mut self) -> Option<JoinHandle<()>> {
-        if let Some(compaction_thread_handle) = self.maybe_background_compaction_handle.take() {
+    pub(crate) fn stop_worker_thread(&self) -> Option<JoinHandle<()>> {
+        if let Some(compaction_thread_handle) =
+            self.maybe_background_compaction_handle.lock().take()
+        {
             if self.task_sender.send(TaskKind::Terminate).is_err() {
                 log::debug!("Compaction worker thread has already been terminated.");
             }
